@@ -12,7 +12,6 @@ package commonprefix
 //@   ensures longest: forall q: string {trig(q)} :: trig(q) && len(strs) > 0 && (forall k: int :: 0 <= k && k < len(strs) ==> hasprefix(strs[k], q)) ==> len(q) <= len(result)
 //@   loop 1 invariant idx: 0 - 1 <= rangeindex && rangeindex < len(strs)
 //@   loop 1 invariant member: exists k: int :: 0 <= k && k < len(strs) && same(short, strs[k])
-//@   loop 1 invariant shortest: forall j: int :: 0 <= j && j <= rangeindex ==> len(short) <= len(strs[j])
 //@   loop 2 invariant idx: 0 <= i && i <= len(short)
 //@   loop 2 invariant pfx: len(prefix) == i && (forall j: int :: 0 <= j && j < i ==> prefix[j] == short[j])
 //@   loop 2 invariant old: same(prefix, old_prefix)
